@@ -16,14 +16,14 @@ use proptest::prelude::*;
 use std::collections::HashMap;
 use vcore::{CaseResult, EnumCheck, Fail, Obs, PropCheck, SubCheck, Tier};
 
-fn idle_ms(sc: &Scenario, client: usize) -> u64 {
+pub fn idle_ms(sc: &Scenario, client: usize) -> u64 {
     let a = sc.server.limits.idle_timeout_ms.unwrap_or(30_000) as u64;
     let b = sc.clients[client].endpoint.limits.idle_timeout_ms.unwrap_or(30_000) as u64;
     a.min(b)
 }
 
 /// time of the last datagram the network did not simply deliver
-fn t_heal_us(out: &Outcome) -> u64 {
+pub fn t_heal_us(out: &Outcome) -> u64 {
     out.net.iter().filter(|n| n.fate != Fate::Delivered).map(|n| n.deliveries_us.iter().copied().max().unwrap_or(n.t_us).max(n.t_us)).max().unwrap_or(0)
 }
 
@@ -92,7 +92,7 @@ fn describe_pending(out: &Outcome) -> String {
 /// an endpoint's Handshake-space CRYPTO data is declared lost while its congestion window is full of 1-RTT packets the
 /// peer cannot process yet; the retransmission is blocked by the window, nothing is in flight in the Handshake space
 /// (no PTO), the application space has no PTO before the handshake is confirmed: silence until the idle timeout.
-fn handshake_crypto_blocked(out: &Outcome) -> Option<String> {
+pub fn handshake_crypto_blocked(out: &Outcome) -> Option<String> {
     use crate::rec::{Ev, Space};
     use std::collections::HashMap;
     // (ep, conn) -> (time of the loss, limited at that moment)
@@ -383,6 +383,7 @@ fn enum_base() -> Scenario {
         attacks: vec![],
         evil: None,
         tp: None,
+        key_update_after: None,
     }
 }
 
